@@ -85,11 +85,17 @@ func (g *genCtx) genTree(base string, size int, mt *int64) []Node {
 		out = append(out, n)
 	}
 	group := 0
+	treeComp := func() string {
+		if r.chance(1, 9) {
+			return r.pick([]string{".cfg", ".wh.a", ".wh..wh..opq", ".x", "a.b"})
+		}
+		return r.pick(comps)
+	}
 	for i := 0; i < size; i++ {
 		depth := 1 + r.intn(3)
 		p := base
 		for d := 0; d < depth; d++ {
-			p = p + "/" + r.pick(comps)
+			p = p + "/" + treeComp()
 			if d < depth-1 {
 				add(Node{Path: p, Kind: 'd', Perm: r.pickPerm(true), Uid: r.pickID(), Gid: r.pickID()})
 			}
@@ -106,24 +112,46 @@ func (g *genCtx) genTree(base string, size int, mt *int64) []Node {
 				group++
 				n.Group = group
 				add(n)
-				q := filepath.Dir(p) + "/" + r.pick(comps) + "l"
-				n2 := n
-				n2.Path = q
-				add(n2)
+				for k := 1 + r.intn(3); k > 0; k-- {
+					n2 := n
+					n2.Path = filepath.Dir(p) + "/" + r.pick(comps) + r.pick([]string{"l", "m", "n"})
+					add(n2)
+				}
 			} else {
 				add(n)
 			}
 		case k < 16:
 			if g.symlinks {
 				t := r.pick([]string{"a", "../b", "../../secret", "/w/secret", "/w/outdir", "../../outdir", "nonexistent", "/w/dest2", ".", "..", "/", "b/c", "/w/dest/a"})
-				add(Node{Path: p, Kind: 's', Perm: 0o777, Uid: r.pickID(), Gid: r.pickID(), Target: t})
+				n := Node{Path: p, Kind: 's', Perm: 0o777, Uid: r.pickID(), Gid: r.pickID(), Target: t}
+				if r.chance(1, 4) {
+					group++
+					n.Group = group
+					add(n)
+					n.Path = filepath.Dir(p) + "/" + r.pick(comps) + "k"
+				}
+				add(n)
 			} else {
 				add(Node{Path: p, Kind: 'r', Perm: 0o644, Data: "x"})
 			}
 		case k < 17:
-			add(Node{Path: p, Kind: 'f', Perm: r.pickPerm(false), Uid: r.pickID(), Gid: r.pickID()})
+			n := Node{Path: p, Kind: 'f', Perm: r.pickPerm(false), Uid: r.pickID(), Gid: r.pickID()}
+			if r.chance(1, 3) {
+				group++
+				n.Group = group
+				add(n)
+				n.Path = filepath.Dir(p) + "/" + r.pick(comps) + "k"
+			}
+			add(n)
 		case k < 18:
-			add(Node{Path: p, Kind: 'c', Perm: 0o644, Maj: uint32(r.intn(3)), Min: uint32(r.intn(3))})
+			n := Node{Path: p, Kind: 'c', Perm: 0o644, Maj: uint32(r.intn(3)), Min: uint32(r.intn(3))}
+			if r.chance(1, 3) {
+				group++
+				n.Group = group
+				add(n)
+				n.Path = filepath.Dir(p) + "/" + r.pick(comps) + "k"
+			}
+			add(n)
 		default:
 			add(Node{Path: p, Kind: 'r', Perm: 0o644, Data: ""})
 		}
